@@ -1313,6 +1313,29 @@ func (w *World) checkTypes(prop string) []*Obligation {
 // constArrayInit recovers the initial contents of a package-level array variable whose initialiser is a composite
 // literal of constants: init builds it in a local array (stores of constants at constant indices) and copies it
 // into the global. Returns index -> constant, and whether the pattern was recognised.
+// scalarInitStore finds the value the package initialiser stores into the scalar global g (nil when there is none or
+// more than one).
+func (w *World) scalarInitStore(g *ssa.Global) ssa.Value {
+	init := g.Pkg.Func("init")
+	if init == nil {
+		return nil
+	}
+	var val ssa.Value
+	n := 0
+	for _, b := range init.Blocks {
+		for _, in := range b.Instrs {
+			if st, ok := in.(*ssa.Store); ok && st.Addr == ssa.Value(g) {
+				val = st.Val
+				n++
+			}
+		}
+	}
+	if n != 1 {
+		return nil
+	}
+	return val
+}
+
 func (w *World) constArrayInit(g *ssa.Global) (map[int64]*ssa.Const, bool) {
 	init := g.Pkg.Func("init")
 	if init == nil {
